@@ -85,3 +85,622 @@ Proof.
     change (1 <= epd) in He. nia. }
   split; [unfold SUMMARY_DECIMATE_FACTOR_MIN; lia|]. split; [unfold SUMMARY_DECIMATE_FACTOR_MIN; lia|]. exact Hwok.
 Qed.
+
+(* ================================================================ the state invariant *)
+Definition sf_B : Z := 1000000000000000%Z.      (* 10^15: window of sample ids *)
+Definition sf_K : N := 1000000000000000.         (* 10^15: number of API calls *)
+
+Lemma sf_lim_ge : forall d, sf_def_ok d -> sf_K <= sf_lim d.
+Proof.
+  intros d (H1 & H2 & _). unfold sf_lim, sf_K.
+  assert (H14 : 10 ^ 14 <= sg_sumdf d ^ 14) by (apply N.pow_le_mono_l; exact H2).
+  change 1000000000000000 with (10 * 10 ^ 14). apply N.mul_le_mono; assumption.
+Qed.
+
+Lemma sf_pow15_ge : forall dec, 10 <= dec -> sf_K <= dec ^ 15.
+Proof. intros dec H. change sf_K with (10 ^ 15). apply N.pow_le_mono_l. exact H. Qed.
+
+Definition sf_sig_ok (dsk : list (N * fm_chunk_header)) (lo : Z) (k : N) (s : wm_signal) : Prop :=
+  sf_def_ok (wm_sg_def s) /\
+  sf_tk dsk (wm_sg_tk_fsr s) /\ wm_get_off (wm_tk_offsets (wm_sg_tk_fsr s)) 15 = 0 /\
+  sf_tk dsk (wm_sg_tk_vsr s) /\ sf_tk dsk (wm_sg_tk_anno s) /\ sf_tk dsk (wm_sg_tk_utc s) /\
+  (forall f, wm_sg_fsr s = Some f ->
+     sf_fsr_inv (wm_sg_def s) f /\ (wm_f_alloc f = true -> (lo <= wm_f_sid0 f /\ sf_pos f < lo + sf_B)%Z)) /\
+  (forall ts, wm_sg_anno s = Some ts -> sf_ts_ok ts /\ 10 <= wm_ts_dec ts /\ sf_ts_w ts 1 <= wm_ts_dec ts * k) /\
+  (forall ts, wm_sg_utc s = Some ts -> sf_ts_ok ts /\ 10 <= wm_ts_dec ts /\ sf_ts_w ts 1 <= wm_ts_dec ts * k).
+
+(* the tracks a call may use are open (true until jls_wr_close) *)
+Definition sf_sig_open (s : wm_signal) : Prop :=
+  wm_sg_anno s <> None /\
+  (sg_type (wm_sg_def s) = JLS_SIGNAL_TYPE_FSR -> wm_sg_fsr s <> None /\ wm_sg_utc s <> None).
+
+Definition sf_st_ok (lo : Z) (k : N) (st : wm_state) : Prop :=
+  sf_base_ok (wm_st_base st) /\ Forall (sf_sig_ok (sf_bdisk (wm_st_base st)) lo k) (wm_st_sigs st).
+Definition sf_st_open (st : wm_state) : Prop := Forall sf_sig_open (wm_st_sigs st).
+
+Lemma sf_sig_ok_mono : forall dsk dsk' lo k k' s, incl dsk dsk' -> k <= k' -> sf_sig_ok dsk lo k s -> sf_sig_ok dsk' lo k' s.
+Proof.
+  intros dsk dsk' lo k k' s Hi Hk (H1 & H2 & H3 & H4 & H5 & H6 & H7 & H8 & H9).
+  split; [exact H1|]. split; [eapply sf_tk_incl; eassumption|]. split; [exact H3|].
+  split; [eapply sf_tk_incl; eassumption|]. split; [eapply sf_tk_incl; eassumption|]. split; [eapply sf_tk_incl; eassumption|].
+  split; [exact H7|].
+  split; intros ts Hts; [destruct (H8 ts Hts) as (A & B & C) | destruct (H9 ts Hts) as (A & B & C)];
+    (split; [exact A|]; split; [exact B|]; eapply N.le_trans; [exact C | apply N.mul_le_mono_l; exact Hk]).
+Qed.
+
+Lemma sf_Forall_sig_mono : forall dsk dsk' lo k k' l, incl dsk dsk' -> k <= k' ->
+  Forall (sf_sig_ok dsk lo k) l -> Forall (sf_sig_ok dsk' lo k') l.
+Proof. intros. eapply Forall_impl; [|eassumption]. intros s Hs. eapply sf_sig_ok_mono; eassumption. Qed.
+
+Lemma sf_find_sig_in : forall st id s, wm_find_sig st id = Some s -> In s (wm_st_sigs st) /\ wm_sig_id s = id.
+Proof.
+  intros st id s H. unfold wm_find_sig in H. apply find_some in H. destruct H as [Hin Heq]. apply N.eqb_eq in Heq. auto.
+Qed.
+
+Lemma sf_put_sig_Forall : forall (P : wm_signal -> Prop) st b s, Forall P (wm_st_sigs st) -> P s -> Forall P (wm_st_sigs (wm_put_sig st b s)).
+Proof.
+  intros P st b s Hf Hs. unfold wm_put_sig. cbn [wm_st_sigs]. apply Forall_forall. intros y Hy.
+  apply in_map_iff in Hy. destruct Hy as (x & Hx & Hin). destruct (wm_sig_id x =? wm_sig_id s); subst y; [exact Hs|].
+  rewrite Forall_forall in Hf. now apply Hf.
+Qed.
+
+(* a call that worked on signal s: new base b', new signal state s' *)
+Lemma sf_put_sig_ok : forall lo k k' st b' s',
+  sf_st_ok lo k st -> sf_base_ok b' -> sf_bext (wm_st_base st) b' -> k <= k' ->
+  sf_sig_ok (sf_bdisk b') lo k' s' -> sf_st_ok lo k' (wm_put_sig st b' s').
+Proof.
+  intros lo k k' st b' s' [Hb Hs] Hb' He Hk Hs'. split; [exact Hb'|].
+  change (sf_bdisk (wm_st_base (wm_put_sig st b' s'))) with (sf_bdisk b').
+  apply sf_put_sig_Forall; [|exact Hs']. eapply sf_Forall_sig_mono; eassumption.
+Qed.
+
+Lemma sf_st_ok_base : forall lo k k' st b', sf_st_ok lo k st -> sf_base_ok b' -> sf_bext (wm_st_base st) b' -> k <= k' ->
+  sf_st_ok lo k' {| wm_st_base := b'; wm_st_srcs := wm_st_srcs st; wm_st_sigs := wm_st_sigs st |}.
+Proof.
+  intros lo k k' st b' [Hb Hs] Hb' He Hk. split; [exact Hb'|]. cbn [wm_st_base wm_st_sigs]. eapply sf_Forall_sig_mono; eassumption.
+Qed.
+
+(* ================================================================ calls that only append to a global list *)
+Lemma sf_base_append : forall b head prev tag meta plen payload r1 h1 r2 c,
+  sf_base_ok b -> sf_ck (sf_bdisk b) head -> tag <> JLS_TAG_INVALID -> plen <= N.of_nat (length payload) ->
+  wm_raw_wr (wm_b_raw b) (wm_mk_hdr prev tag meta plen) payload = (r1, h1) ->
+  wm_update_item_head r1 head {| wm_ck_offset := wm_raw_chunk_tell (wm_b_raw b); wm_ck_hdr := h1 |} = (r2, c) ->
+  sf_base_ok (wm_b_set_raw b r2) /\ sf_bext b (wm_b_set_raw b r2) /\ sf_ck (wm_disk r2) c.
+Proof.
+  intros. destruct (sf_core_append _ _ _ _ _ _ _ _ _ _ _ H H0 H1 H2 H3 H4) as (A & B & C & _). auto.
+Qed.
+
+Lemma sf_api_user_data_ok : forall lo k st u, sf_st_ok lo k st ->
+  sf_st_ok lo k (fst (wm_api_user_data st u)) /\ wm_st_sigs (fst (wm_api_user_data st u)) = wm_st_sigs st.
+Proof.
+  intros lo k st u Hst. unfold wm_api_user_data.
+  destruct (3 <? ud_stype u); [split; [exact Hst | reflexivity]|].
+  set (data := if ud_stype u =? JLS_STORAGE_TYPE_INVALID then [] else if ud_stype u =? JLS_STORAGE_TYPE_BINARY then ud_data u else wm_cstr (ud_data u) ++ [0]).
+  destruct (wm_raw_wr (wm_b_raw (wm_st_base st)) _ data) as [r1 h1] eqn:Ew.
+  destruct (wm_update_item_head r1 (wm_b_ud_head (wm_st_base st)) _) as [r2 uh] eqn:Eu.
+  cbn [fst]. pose proof Hst as [Hb Hs]. pose proof Hb as (_ & _ & _ & Hud).
+  assert (Htag : JLS_TAG_USER_DATA <> JLS_TAG_INVALID) by discriminate.
+  destruct (sf_base_append _ _ _ _ _ _ _ _ _ _ _ Hb Hud Htag (N.le_refl _) Ew Eu) as (Hb2 & He2 & Hc).
+  split; [|reflexivity].
+  unfold wm_st_set_base. apply (sf_st_ok_base lo k k st); [exact Hst | | | apply N.le_refl].
+  - destruct Hb2 as (K0 & K1 & K2 & K3). unfold sf_base_ok, sf_bdisk in *.
+    cbn [wm_b_set_ud_head wm_b_set_raw wm_b_raw wm_b_source_head wm_b_signal_head wm_b_ud_head] in *.
+    split; [exact K0|]. split; [exact K1|]. split; [exact K2 | exact Hc].
+  - exact He2.
+Qed.
+
+Lemma sf_api_source_def_ok : forall lo k st d, sf_st_ok lo k st ->
+  sf_st_ok lo k (fst (wm_api_source_def st d)) /\ wm_st_sigs (fst (wm_api_source_def st d)) = wm_st_sigs st.
+Proof.
+  intros lo k st d Hst. unfold wm_api_source_def.
+  destruct (JLS_SOURCE_COUNT <=? so_id d); [split; [exact Hst | reflexivity]|].
+  destruct (existsb (N.eqb (so_id d)) (wm_st_srcs st)); [split; [exact Hst | reflexivity]|].
+  match goal with |- context [if negb ?c then _ else _] => destruct c end; cbn [negb]; [|split; [exact Hst | reflexivity]].
+  destruct (wm_raw_wr (wm_b_raw (wm_st_base st)) _ (wm_source_payload d)) as [r1 h1] eqn:Ew.
+  destruct (wm_update_item_head r1 (wm_b_source_head (wm_st_base st)) _) as [r2 sh] eqn:Eu.
+  cbn [fst]. pose proof Hst as [Hb Hs]. pose proof Hb as (_ & Hsrc & _ & _).
+  assert (Htag : JLS_TAG_SOURCE_DEF <> JLS_TAG_INVALID) by discriminate.
+  destruct (sf_base_append _ _ _ _ _ _ _ _ _ _ _ Hb Hsrc Htag (N.le_refl _) Ew Eu) as (Hb2 & He2 & Hc).
+  split; [|reflexivity].
+  destruct Hst as [_ Hsg]. split.
+  - destruct Hb2 as (K0 & K1 & K2 & K3). unfold sf_base_ok, sf_bdisk in *.
+    cbn [wm_st_base wm_b_set_source_head wm_b_set_raw wm_b_raw wm_b_source_head wm_b_signal_head wm_b_ud_head] in *.
+    split; [exact K0|]. split; [exact Hc|]. split; [exact K2 | exact K3].
+  - cbn [wm_st_base wm_st_sigs]. eapply sf_Forall_sig_mono; [exact He2 | apply N.le_refl | exact Hsg].
+Qed.
+
+Lemma sf_api_flush_ok : forall lo k st, sf_st_ok lo k st ->
+  sf_st_ok lo k (fst (wm_api_flush st)) /\ wm_st_sigs (fst (wm_api_flush st)) = wm_st_sigs st.
+Proof.
+  intros lo k st Hst. unfold wm_api_flush. cbn [fst]. split; [|reflexivity].
+  unfold wm_st_set_base. apply (sf_st_ok_base lo k k st); [exact Hst | | apply incl_refl | apply N.le_refl].
+  destruct Hst as [(Hr & H1 & H2 & H3) _]. split; [|split; [exact H1|split; [exact H2 | exact H3]]].
+  destruct Hr as (R1 & R2 & R3 & R4 & R5 & R6). unfold sf_raw_ok.
+  cbn [wm_b_raw wm_b_set_raw wm_raw_flush wm_bk_fflush wm_log_add wm_fault wm_offset wm_fpos wm_fend wm_disk].
+  do 5 (split; [assumption|]). assumption.
+Qed.
+
+(* ================================================================ jls_wr_signal_def *)
+Lemma sf_def_track : forall b sid ty b' t, sf_base_ok b -> wm_def_track b sid ty = (b', t) ->
+  sf_base_ok b' /\ sf_bext b b' /\ sf_tk (sf_bdisk b') t /\ wm_get_off (wm_tk_offsets t) 15 = 0.
+Proof.
+  intros b sid ty b' t Hb H. unfold wm_def_track in H.
+  destruct (sf_track_wr_def b sid ty Hb) as [Hb1 He1].
+  destruct (sf_track_wr_head _ _ _ _ _ Hb1 (sf_tk0 _ ty) H) as (K1 & K2 & K3 & K4 & _).
+  split; [exact K1|]. split; [eapply sf_bext_trans; eassumption|]. split; [exact K3|]. rewrite K4. reflexivity.
+Qed.
+
+Lemma sf_in_skipn1 : forall (A : Type) (o : A) l, In o (skipn 1 l) -> In o l.
+Proof. intros A o l H. rewrite <- (firstn_skipn 1 l). apply in_or_app. now right. Qed.
+
+Lemma sf_ts_open_sig : forall dec k, 10 <= dec ->
+  sf_ts_ok (wm_ts_open dec) /\ 10 <= wm_ts_dec (wm_ts_open dec) /\ sf_ts_w (wm_ts_open dec) 1 <= wm_ts_dec (wm_ts_open dec) * k.
+Proof.
+  intros dec k H. destruct (sf_ts_open_ok dec ltac:(lia)) as [A _]. split; [exact A|]. split; [exact H|].
+  unfold sf_ts_w. cbn [wm_ts_open wm_ts_levels wm_ts_dec]. rewrite sf_lw_zero; [lia|].
+  intros o Ho. apply sf_in_skipn1 in Ho. apply repeat_spec in Ho. subst. reflexivity.
+Qed.
+
+Lemma sf_fsr_open_inv : forall d, sf_fsr_inv d wm_fsr_open.
+Proof.
+  intro d. unfold sf_fsr_inv, wm_fsr_open. cbn [wm_f_alloc].
+  split; [split; [reflexivity | apply Forall_forall; intros o Ho; apply repeat_spec in Ho; subst; exact I]|].
+  split; [discriminate|]. intros _. unfold sf_f_w. cbn [wm_f_levels]. apply sf_lw_zero.
+  intros o Ho. apply sf_in_skipn1 in Ho. apply repeat_spec in Ho. subst. reflexivity.
+Qed.
+
+Lemma sf_app_sig_ok : forall lo k st b' s,
+  sf_st_ok lo k st -> sf_base_ok b' -> sf_bext (wm_st_base st) b' -> sf_sig_ok (sf_bdisk b') lo k s ->
+  sf_st_ok lo k {| wm_st_base := b'; wm_st_srcs := wm_st_srcs st; wm_st_sigs := wm_st_sigs st ++ [s] |}.
+Proof.
+  intros lo k st b' s [Hb Hs] Hb' He Hs'. split; [exact Hb'|]. cbn [wm_st_base wm_st_sigs].
+  apply Forall_app. split; [eapply sf_Forall_sig_mono; [exact He | apply N.le_refl | exact Hs] | constructor; [exact Hs' | constructor]].
+Qed.
+
+Lemma sf_api_signal_def_ok : forall lo k st d0, sf_st_ok lo k st -> sf_st_open st ->
+  sf_st_ok lo k (fst (wm_api_signal_def st d0)) /\ sf_st_open (fst (wm_api_signal_def st d0)).
+Proof.
+  intros lo k st d0 Hst Hop. unfold wm_api_signal_def.
+  destruct (JLS_SIGNAL_COUNT <=? sg_id d0); [split; assumption|].
+  destruct (JLS_SOURCE_COUNT <=? sg_src d0); [split; assumption|].
+  destruct (negb (existsb (N.eqb (sg_src d0)) (wm_st_srcs st))); [split; assumption|].
+  destruct (wm_find_sig st (sg_id d0)); [split; assumption|].
+  destruct (negb ((sg_type d0 =? JLS_SIGNAL_TYPE_FSR) || (sg_type d0 =? JLS_SIGNAL_TYPE_VSR))); [split; assumption|].
+  destruct (negb (wm_str_fits (sg_name d0) && wm_str_fits (sg_units d0))); [split; assumption|].
+  destruct (negb (wm_dt_valid (sg_dtype d0))) eqn:Edt; [split; assumption|]. apply negb_false_iff in Edt.
+  destruct (wm_sig_align d0) as [d|] eqn:Eal; [|split; assumption].
+  destruct (sf_align_ok d0 d Edt Eal) as (Hd & _).
+  destruct ((sg_type d =? JLS_SIGNAL_TYPE_FSR) && (sg_rate d =? 0)); [split; assumption|].
+  destruct (wm_raw_wr (wm_b_raw (wm_st_base st)) _ (wm_signal_payload d)) as [r1 h1] eqn:Ew.
+  destruct (wm_update_item_head r1 (wm_b_signal_head (wm_st_base st)) _) as [r2 sh] eqn:Eu.
+  pose proof Hst as [Hb Hs]. pose proof Hb as (_ & _ & Hsg & _).
+  assert (Htag : JLS_TAG_SIGNAL_DEF <> JLS_TAG_INVALID) by discriminate.
+  destruct (sf_base_append _ _ _ _ _ _ _ _ _ _ _ Hb Hsg Htag (N.le_refl _) Ew Eu) as (Hb2 & He2 & Hc).
+  set (b1 := wm_b_set_signal_head (wm_b_set_raw (wm_st_base st) r2) sh).
+  assert (Hb1 : sf_base_ok b1 /\ sf_bext (wm_st_base st) b1).
+  { split; [|exact He2]. destruct Hb2 as (K0 & K1 & K2 & K3). unfold sf_base_ok, sf_bdisk, b1 in *.
+    cbn [wm_b_set_signal_head wm_b_set_raw wm_b_raw wm_b_source_head wm_b_signal_head wm_b_ud_head] in *.
+    split; [exact K0|]. split; [exact K1|]. split; [exact Hc | exact K3]. }
+  destruct Hb1 as [Hb1 He1].
+  assert (Hadf : 2 <= sg_adf d /\ 10 <= sg_adf d) by (destruct Hd as (_ & _ & _ & A & _); lia).
+  assert (Hudf : 2 <= sg_udf d /\ 10 <= sg_udf d) by (destruct Hd as (_ & _ & _ & _ & A & _); lia).
+  destruct (sg_type d =? JLS_SIGNAL_TYPE_FSR) eqn:Ety.
+  - destruct (wm_def_track b1 (sg_id d) JLS_TRACK_TYPE_FSR) as [b2 tf] eqn:E2.
+    destruct (wm_def_track b2 (sg_id d) JLS_TRACK_TYPE_ANNOTATION) as [b3 ta] eqn:E3.
+    destruct (wm_def_track b3 (sg_id d) JLS_TRACK_TYPE_UTC) as [b4 tu] eqn:E4.
+    destruct (sf_def_track _ _ _ _ _ Hb1 E2) as (B2 & X2 & T2 & O2).
+    destruct (sf_def_track _ _ _ _ _ B2 E3) as (B3 & X3 & T3 & _).
+    destruct (sf_def_track _ _ _ _ _ B3 E4) as (B4 & X4 & T4 & _).
+    cbn [fst]. split.
+    + apply sf_app_sig_ok; [exact Hst | exact B4 | |].
+      * eapply sf_bext_trans; [exact He1|]. eapply sf_bext_trans; [exact X2|]. eapply sf_bext_trans; eassumption.
+      * unfold sf_sig_ok. cbn [wm_sg_def wm_sg_tk_fsr wm_sg_tk_vsr wm_sg_tk_anno wm_sg_tk_utc wm_sg_fsr wm_sg_anno wm_sg_utc].
+        split; [exact Hd|]. split; [eapply sf_tk_incl; [|exact T2]; eapply sf_bext_trans; eassumption|]. split; [exact O2|].
+        split; [apply sf_tk0|]. split; [eapply sf_tk_incl; [exact X4 | exact T3]|]. split; [exact T4|].
+        split; [intros f Hf; inversion Hf; subst f; split; [apply sf_fsr_open_inv | discriminate]|].
+        split; intros ts Hts; inversion Hts; subst ts.
+        -- apply sf_ts_open_sig. exact (proj2 Hadf).
+        -- apply sf_ts_open_sig. exact (proj2 Hudf).
+    + unfold sf_st_open. cbn [wm_st_sigs]. apply Forall_app. split; [exact Hop|]. constructor; [|constructor].
+      unfold sf_sig_open. cbn [wm_sg_def wm_sg_fsr wm_sg_anno wm_sg_utc]. split; [discriminate|]. intros _. split; discriminate.
+  - destruct (wm_def_track b1 (sg_id d) JLS_TRACK_TYPE_VSR) as [b2 tv] eqn:E2.
+    destruct (wm_def_track b2 (sg_id d) JLS_TRACK_TYPE_ANNOTATION) as [b3 ta] eqn:E3.
+    destruct (sf_def_track _ _ _ _ _ Hb1 E2) as (B2 & X2 & T2 & _).
+    destruct (sf_def_track _ _ _ _ _ B2 E3) as (B3 & X3 & T3 & _).
+    cbn [fst]. split.
+    + apply sf_app_sig_ok; [exact Hst | exact B3 | |].
+      * eapply sf_bext_trans; [exact He1|]. eapply sf_bext_trans; eassumption.
+      * unfold sf_sig_ok. cbn [wm_sg_def wm_sg_tk_fsr wm_sg_tk_vsr wm_sg_tk_anno wm_sg_tk_utc wm_sg_fsr wm_sg_anno wm_sg_utc].
+        split; [exact Hd|]. split; [apply sf_tk0|]. split; [reflexivity|].
+        split; [eapply sf_tk_incl; [exact X3 | exact T2]|]. split; [exact T3|]. split; [apply sf_tk0|].
+        split; [intros f Hf; discriminate|].
+        split; intros ts Hts; [|discriminate]. inversion Hts; subst ts.
+        apply sf_ts_open_sig. exact (proj2 Hadf).
+    + unfold sf_st_open. cbn [wm_st_sigs]. apply Forall_app. split; [exact Hop|]. constructor; [|constructor].
+      unfold sf_sig_open. cbn [wm_sg_def wm_sg_fsr wm_sg_anno wm_sg_utc]. split; [discriminate|].
+      intro Hty. apply N.eqb_neq in Ety. congruence.
+Qed.
+
+(* ================================================================ the common part of jls_wr_annotation / jls_wr_utc *)
+Lemma sf_ts_data_append : forall b t ts sid prev tag meta plen payload timestamp entry k r1 h1 r2 dh b1 t1,
+  sf_base_ok b -> sf_tk (sf_bdisk b) t -> sf_ts_ok ts -> 10 <= wm_ts_dec ts -> sf_ts_w ts 1 <= wm_ts_dec ts * k -> k + 1 < sf_K ->
+  tag <> JLS_TAG_INVALID -> plen <= N.of_nat (length payload) -> length entry = 16%nat ->
+  wm_raw_wr (wm_b_raw b) (wm_mk_hdr prev tag meta plen) payload = (r1, h1) ->
+  wm_update_item_head r1 (wm_tk_data_head t) {| wm_ck_offset := wm_raw_chunk_tell (wm_b_raw b); wm_ck_hdr := h1 |} = (r2, dh) ->
+  wm_track_update (wm_b_set_raw b r2) sid (wm_tk_set_data_head t dh) 0 (wm_raw_chunk_tell (wm_b_raw b)) = (b1, t1) ->
+  let x := wm_ts_add sid {| wm_tx_base := b1; wm_tx_tk := t1; wm_tx_ts := ts |} timestamp (wm_raw_chunk_tell (wm_b_raw b)) entry in
+  sf_base_ok (wm_tx_base x) /\ sf_bext b (wm_tx_base x) /\ sf_tk (sf_bdisk (wm_tx_base x)) (wm_tx_tk x) /\
+  sf_ts_ok (wm_tx_ts x) /\ 10 <= wm_ts_dec (wm_tx_ts x) /\ sf_ts_w (wm_tx_ts x) 1 <= wm_ts_dec (wm_tx_ts x) * (k + 1).
+Proof.
+  intros b t ts sid prev tag meta plen payload timestamp entry k r1 h1 r2 dh b1 t1 Hb Ht Hts Hdec Hw Hk Htag Hlen He Ew Eu Et.
+  pose proof Ht as (T1 & T2 & T3 & T4 & T5 & T6).
+  destruct (sf_core_append _ _ _ _ _ _ _ _ _ _ _ Hb T3 Htag Hlen Ew Eu) as (Hb2 & He2 & Hc & _).
+  pose proof (sf_tk_incl _ _ _ He2 Ht) as (U1 & U2 & U3 & U4 & U5 & U6).
+  assert (Ht1 : sf_tk (sf_bdisk (wm_b_set_raw b r2)) (wm_tk_set_data_head t dh)).
+  { unfold sf_tk, sf_bdisk. cbn [wm_b_set_raw wm_b_raw wm_tk_set_data_head wm_tk_head wm_tk_data_head wm_tk_index_head wm_tk_summary_head wm_tk_offsets].
+    split; [exact U1|]. split; [exact U2|]. split; [exact Hc|]. split; [exact U4|]. split; [exact U5 | exact U6]. }
+  destruct (sf_track_update _ _ _ _ _ _ _ Hb2 Ht1 Et) as (Hb3 & He3 & Ht3 & _).
+  set (x0 := {| wm_tx_base := b1; wm_tx_tk := t1; wm_tx_ts := ts |}).
+  assert (Hx0 : sf_tx_ok x0) by (split; [exact Hb3|]; split; [exact Ht3 | exact Hts]).
+  set (dec := wm_ts_dec ts) in *.
+  assert (Hpre : sf_ts_w (wm_tx_ts x0) 1 + wm_ts_dec (wm_tx_ts x0) < wm_ts_dec (wm_tx_ts x0) ^ 16).
+  { cbn [x0 wm_tx_ts]. fold dec. pose proof (sf_pow15_ge dec Hdec) as Hp.
+    change 16 with (N.succ 15). rewrite N.pow_succ_r'. set (P := dec ^ 15) in *. nia. }
+  destruct (sf_ts_add_spec sid x0 timestamp (wm_raw_chunk_tell (wm_b_raw b)) entry Hx0 He Hpre) as (K1 & K2 & K3 & K4).
+  cbv zeta in K1, K2, K3, K4 |- *. cbn [x0 wm_tx_base wm_tx_ts] in K2, K3, K4. fold dec in K3, K4.
+  destruct K1 as (A1 & A2 & A3).
+  split; [exact A1|]. split; [eapply sf_bext_trans; [exact He2|]; eapply sf_bext_trans; eassumption|].
+  split; [exact A2|]. split; [exact A3|]. rewrite K3. split; [exact Hdec|]. nia.
+Qed.
+
+Lemma sf_anno_entry_length : forall ts ty g y, length (wm_anno_summary_entry ts ty g y) = 16%nat.
+Proof.
+  intros. unfold wm_anno_summary_entry. rewrite !app_length, fm_enc_i64_length. unfold fm_enc_u8, fm_enc_u32. rewrite !fm_enc_length. reflexivity.
+Qed.
+Lemma sf_utc_entry_length : forall a b, length (wm_utc_summary_entry a b) = 16%nat.
+Proof. intros. unfold wm_utc_summary_entry. rewrite app_length, !fm_enc_i64_length. reflexivity. Qed.
+Lemma sf_utc_payload_length : forall a b, SIZEOF_utc_data <= N.of_nat (length (wm_utc_payload a b)).
+Proof. intros. unfold wm_utc_payload. rewrite app_length, sf_payload_header_length, fm_enc_i64_length. cbv. discriminate. Qed.
+
+(* the three results of jls_core_signal_validate(_typed) *)
+Lemma sf_validate_some : forall st sig s, wm_signal_validate st sig = (0, Some s) -> In s (wm_st_sigs st).
+Proof.
+  intros st sig s H. unfold wm_signal_validate in H. destruct (JLS_SIGNAL_COUNT <=? sig); [discriminate|].
+  destruct (wm_find_sig st sig) as [s'|] eqn:E; [|discriminate]. inversion H; subst s'. apply (sf_find_sig_in _ _ _ E).
+Qed.
+Lemma sf_validate_typed_some : forall st sig ty s, wm_signal_validate_typed st sig ty = (0, Some s) ->
+  In s (wm_st_sigs st) /\ sg_type (wm_sg_def s) = ty.
+Proof.
+  intros st sig ty s H. unfold wm_signal_validate_typed in H.
+  destruct (wm_signal_validate st sig) as [rc os] eqn:E.
+  destruct rc as [|p]; [|destruct os; inversion H].
+  destruct os as [s'|]; [|inversion H].
+  destruct (sg_type (wm_sg_def s') =? ty) eqn:Et; [|inversion H].
+  inversion H; subst s'. split; [apply (sf_validate_some _ _ _ E) | apply N.eqb_eq; exact Et].
+Qed.
+
+Lemma sf_In_sig_ok : forall lo k st s, sf_st_ok lo k st -> In s (wm_st_sigs st) -> sf_sig_ok (sf_bdisk (wm_st_base st)) lo k s.
+Proof. intros lo k st s [_ H] Hin. rewrite Forall_forall in H. now apply H. Qed.
+Lemma sf_In_sig_open : forall st s, sf_st_open st -> In s (wm_st_sigs st) -> sf_sig_open s.
+Proof. intros st s H Hin. unfold sf_st_open in H. rewrite Forall_forall in H. now apply H. Qed.
+
+(* ================================================================ jls_wr_fsr_omit_data *)
+Lemma sf_api_omit_ok : forall lo k st sig en, sf_st_ok lo k st -> sf_st_open st ->
+  sf_st_ok lo k (fst (wm_api_fsr_omit_data st sig en)) /\ sf_st_open (fst (wm_api_fsr_omit_data st sig en)).
+Proof.
+  intros lo k st sig en Hst Hop. unfold wm_api_fsr_omit_data.
+  destruct (wm_signal_validate_typed st sig JLS_SIGNAL_TYPE_FSR) as [rc os] eqn:Ev.
+  destruct rc as [|p]; [|split; assumption]. destruct os as [s|]; [|split; assumption].
+  destruct (sf_validate_typed_some _ _ _ _ Ev) as [Hin Hty].
+  pose proof (sf_In_sig_ok _ _ _ _ Hst Hin) as Hs. destruct (sf_In_sig_open _ _ Hop Hin) as [Ho1 Ho2].
+  destruct (Ho2 Hty) as [Hf Hu].
+  destruct (wm_sg_fsr s) as [f|] eqn:Ef; [|congruence]. cbn [fst].
+  set (s' := wm_sg_set_fsr s (wm_sg_tk_fsr s) (Some (wm_f_set_omit f (if en =? 0 then 0 else N.lor (wm_f_omit f) 1)))).
+  split.
+  - apply (sf_put_sig_ok lo k k st); [exact Hst | apply Hst | apply sf_bext_refl | apply N.le_refl |].
+    destruct Hs as (H1 & H2 & H3 & H4 & H5 & H6 & H7 & H8 & H9).
+    unfold sf_sig_ok, s'. cbn [wm_sg_set_fsr wm_sg_def wm_sg_tk_fsr wm_sg_tk_vsr wm_sg_tk_anno wm_sg_tk_utc wm_sg_fsr wm_sg_anno wm_sg_utc].
+    do 6 (split; [assumption|]). split; [|split; assumption].
+    intros f' Hf'. inversion Hf'; subst f'. destruct (H7 f Ef) as [A B]. split; [exact A | exact B].
+  - apply sf_put_sig_Forall; [exact Hop|]. unfold sf_sig_open, s'. cbn [wm_sg_set_fsr wm_sg_def wm_sg_fsr wm_sg_anno wm_sg_utc].
+    split; [exact Ho1|]. intros _. split; [discriminate | exact Hu].
+Qed.
+
+(* ================================================================ jls_wr_annotation *)
+Lemma sf_api_annotation_ok : forall lo k st sig a, sf_st_ok lo k st -> sf_st_open st -> k + 1 < sf_K ->
+  sf_st_ok lo (k + 1) (fst (wm_api_annotation st sig a)) /\ sf_st_open (fst (wm_api_annotation st sig a)).
+Proof.
+  intros lo k st sig a Hst Hop Hk.
+  assert (Hkeep : sf_st_ok lo (k + 1) st).
+  { destruct Hst as [Hb Hs]. split; [exact Hb|]. eapply sf_Forall_sig_mono; [apply incl_refl | | exact Hs]. lia. }
+  unfold wm_api_annotation.
+  destruct (wm_signal_validate st sig) as [rc os] eqn:Ev.
+  destruct rc as [|p]; [|split; assumption]. destruct os as [s|]; [|split; assumption].
+  pose proof (sf_validate_some _ _ _ Ev) as Hin.
+  pose proof (sf_In_sig_ok _ _ _ _ Hst Hin) as Hs. destruct (sf_In_sig_open _ _ Hop Hin) as [Ho1 Ho2].
+  destruct (256 <=? an_type a); [split; assumption|].
+  destruct (256 <=? an_stype a); [split; assumption|].
+  destruct (negb ((1 <=? an_stype a) && (an_stype a <=? 3))); [split; assumption|].
+  destruct (wm_sg_anno s) as [ts|] eqn:Ea; [|congruence].
+  destruct (wm_raw_wr (wm_b_raw (wm_st_base st)) _ (wm_anno_payload a)) as [r1 h1] eqn:Ew.
+  destruct (wm_update_item_head r1 (wm_tk_data_head (wm_sg_tk_anno s)) _) as [r2 dh] eqn:Eu.
+  destruct (wm_track_update (wm_b_set_raw (wm_st_base st) r2) sig (wm_tk_set_data_head (wm_sg_tk_anno s) dh) 0 _) as [b1 t1] eqn:Et.
+  destruct Hs as (H1 & H2 & H3 & H4 & H5 & H6 & H7 & H8 & H9). destruct (H8 ts Ea) as (A1 & A2 & A3).
+  assert (Htag : JLS_TAG_TRACK_ANNOTATION_DATA <> JLS_TAG_INVALID) by discriminate.
+  pose proof (sf_ts_data_append (wm_st_base st) (wm_sg_tk_anno s) ts sig _ _ _ _ (wm_anno_payload a) (an_ts a)
+                (wm_anno_summary_entry (an_ts a) (an_type a) (an_group a) (an_y a)) k r1 h1 r2 dh b1 t1
+                (proj1 Hst) H5 A1 A2 A3 Hk Htag (N.le_refl _) (sf_anno_entry_length _ _ _ _) Ew Eu Et) as K.
+  cbv zeta in K. cbn [fst].
+  match goal with |- context [wm_ts_add ?a1 ?a2 ?a3 ?a4 ?a5] => set (x := wm_ts_add a1 a2 a3 a4 a5) in * end.
+  destruct K as (K1 & K2 & K3 & K4 & K5 & K6).
+  split.
+  - apply (sf_put_sig_ok lo k (k + 1) st); [exact Hst | exact K1 | exact K2 | lia |].
+    unfold sf_sig_ok. cbn [wm_sg_set_anno wm_sg_def wm_sg_tk_fsr wm_sg_tk_vsr wm_sg_tk_anno wm_sg_tk_utc wm_sg_fsr wm_sg_anno wm_sg_utc].
+    split; [exact H1|]. split; [eapply sf_tk_incl; eassumption|]. split; [exact H3|]. split; [eapply sf_tk_incl; eassumption|].
+    split; [exact K3|]. split; [eapply sf_tk_incl; eassumption|]. split; [exact H7|].
+    split.
+    + intros ts' Hts'. inversion Hts'; subst ts'. split; [exact K4|]. split; [exact K5 | exact K6].
+    + intros ts' Hts'. destruct (H9 ts' Hts') as (B1 & B2 & B3). split; [exact B1|]. split; [exact B2|]. nia.
+  - apply sf_put_sig_Forall; [exact Hop|]. unfold sf_sig_open. cbn [wm_sg_set_anno wm_sg_def wm_sg_fsr wm_sg_anno wm_sg_utc].
+    split; [discriminate | exact Ho2].
+Qed.
+
+(* ================================================================ jls_wr_utc *)
+Lemma sf_api_utc_ok : forall lo k st sig sample_id utc, sf_st_ok lo k st -> sf_st_open st -> k + 1 < sf_K ->
+  sf_st_ok lo (k + 1) (fst (wm_api_utc st sig sample_id utc)) /\ sf_st_open (fst (wm_api_utc st sig sample_id utc)).
+Proof.
+  intros lo k st sig sample_id utc Hst Hop Hk.
+  assert (Hkeep : sf_st_ok lo (k + 1) st).
+  { destruct Hst as [Hb Hs]. split; [exact Hb|]. eapply sf_Forall_sig_mono; [apply incl_refl | | exact Hs]. lia. }
+  unfold wm_api_utc.
+  destruct (wm_signal_validate_typed st sig JLS_SIGNAL_TYPE_FSR) as [rc os] eqn:Ev.
+  destruct rc as [|p]; [|split; assumption]. destruct os as [s|]; [|split; assumption].
+  destruct (sf_validate_typed_some _ _ _ _ Ev) as [Hin Hty].
+  pose proof (sf_In_sig_ok _ _ _ _ Hst Hin) as Hs. destruct (sf_In_sig_open _ _ Hop Hin) as [Ho1 Ho2].
+  destruct (Ho2 Hty) as [Hf Hu].
+  destruct (wm_sg_utc s) as [ts|] eqn:Ea; [|congruence].
+  destruct (wm_raw_wr (wm_b_raw (wm_st_base st)) _ (wm_utc_payload sample_id utc)) as [r1 h1] eqn:Ew.
+  destruct (wm_update_item_head r1 (wm_tk_data_head (wm_sg_tk_utc s)) _) as [r2 dh] eqn:Eu.
+  destruct (wm_track_update (wm_b_set_raw (wm_st_base st) r2) sig (wm_tk_set_data_head (wm_sg_tk_utc s) dh) 0 _) as [b1 t1] eqn:Et.
+  destruct Hs as (H1 & H2 & H3 & H4 & H5 & H6 & H7 & H8 & H9). destruct (H9 ts Ea) as (A1 & A2 & A3).
+  assert (Htag : JLS_TAG_TRACK_UTC_DATA <> JLS_TAG_INVALID) by discriminate.
+  pose proof (sf_ts_data_append (wm_st_base st) (wm_sg_tk_utc s) ts sig _ _ _ _ (wm_utc_payload sample_id utc) sample_id
+                (wm_utc_summary_entry sample_id utc) k r1 h1 r2 dh b1 t1
+                (proj1 Hst) H6 A1 A2 A3 Hk Htag (sf_utc_payload_length _ _) (sf_utc_entry_length _ _) Ew Eu Et) as K.
+  cbv zeta in K. cbn [fst].
+  match goal with |- context [wm_ts_add ?a1 ?a2 ?a3 ?a4 ?a5] => set (x := wm_ts_add a1 a2 a3 a4 a5) in * end.
+  destruct K as (K1 & K2 & K3 & K4 & K5 & K6).
+  split.
+  - apply (sf_put_sig_ok lo k (k + 1) st); [exact Hst | exact K1 | exact K2 | lia |].
+    unfold sf_sig_ok. cbn [wm_sg_set_utc wm_sg_def wm_sg_tk_fsr wm_sg_tk_vsr wm_sg_tk_anno wm_sg_tk_utc wm_sg_fsr wm_sg_anno wm_sg_utc].
+    split; [exact H1|]. split; [eapply sf_tk_incl; eassumption|]. split; [exact H3|]. split; [eapply sf_tk_incl; eassumption|].
+    split; [eapply sf_tk_incl; eassumption|]. split; [exact K3|]. split; [exact H7|].
+    split.
+    + intros ts' Hts'. destruct (H8 ts' Hts') as (B1 & B2 & B3). split; [exact B1|]. split; [exact B2|]. nia.
+    + intros ts' Hts'. inversion Hts'; subst ts'. split; [exact K4|]. split; [exact K5 | exact K6].
+  - apply sf_put_sig_Forall; [exact Hop|]. unfold sf_sig_open. cbn [wm_sg_set_utc wm_sg_def wm_sg_fsr wm_sg_anno wm_sg_utc].
+    split; [exact Ho1|]. intros _. split; [exact Hf | discriminate].
+Qed.
+
+Section SF_API.
+Variable summ1 : N -> list N -> wm_sentry.
+Variable summN : bool -> list wm_sentry -> wm_sentry.
+
+(* ================================================================ jls_wr_fsr *)
+Lemma sf_api_fsr_ok : forall lo k st sig sample_id samples, sf_st_ok lo k st -> sf_st_open st ->
+  (lo <= sample_id /\ sample_id + Z.of_nat (length samples) < lo + sf_B)%Z ->
+  sf_st_ok lo k (fst (wm_api_fsr summ1 summN st sig sample_id samples)) /\
+  sf_st_open (fst (wm_api_fsr summ1 summN st sig sample_id samples)).
+Proof.
+  intros lo k st sig sample_id samples Hst Hop [Hlo Hhi]. unfold wm_api_fsr.
+  destruct (wm_signal_validate_typed st sig JLS_SIGNAL_TYPE_FSR) as [rc os] eqn:Ev.
+  destruct rc as [|p]; [|split; assumption]. destruct os as [s|]; [|split; assumption].
+  destruct (sf_validate_typed_some _ _ _ _ Ev) as [Hin Hty].
+  pose proof (sf_In_sig_ok _ _ _ _ Hst Hin) as Hs. destruct (sf_In_sig_open _ _ Hop Hin) as [Ho1 Ho2].
+  destruct (Ho2 Hty) as [Hf Hu].
+  destruct (wm_sg_fsr s) as [f|] eqn:Ef; [|congruence]. cbn [fst].
+  destruct Hs as (H1 & H2 & H3 & H4 & H5 & H6 & H7 & H8 & H9). destruct (H7 f Ef) as [Finv Fwin].
+  set (x0 := {| wm_fx_base := wm_st_base st; wm_fx_tk := wm_sg_tk_fsr s; wm_fx_fsr := f |}).
+  assert (Hx0 : sf_fx_ok x0) by (split; [apply Hst|]; split; [exact H2|]; split; [apply Finv | exact H3]).
+  pose proof (sf_lim_ge _ H1) as Hlim.
+  destruct (sf_fsr_data_spec summ1 summN (wm_sg_def s) x0 sample_id samples lo (lo + sf_B - 1)%Z Hx0 H1 Finv) as (K1 & K2 & K3 & K4 & K5).
+  { intro Ha. destruct (Fwin Ha). cbn [x0 wm_fx_fsr]. lia. }
+  { exact Hlo. }
+  { lia. }
+  { unfold sf_B, sf_K in *. lia. }
+  cbv zeta in K1, K2, K3, K4, K5.
+  set (x := wm_fsr_data summ1 summN (wm_sg_def s) x0 sample_id samples) in *.
+  destruct K1 as (A1 & A2 & A3 & A4). cbn [x0 wm_fx_base] in K2.
+  split.
+  - apply (sf_put_sig_ok lo k k st); [exact Hst | exact A1 | exact K2 | apply N.le_refl |].
+    unfold sf_sig_ok. cbn [wm_sg_set_fsr wm_sg_def wm_sg_tk_fsr wm_sg_tk_vsr wm_sg_tk_anno wm_sg_tk_utc wm_sg_fsr wm_sg_anno wm_sg_utc].
+    split; [exact H1|]. split; [exact A2|]. split; [exact A4|]. split; [eapply sf_tk_incl; eassumption|].
+    split; [eapply sf_tk_incl; eassumption|]. split; [eapply sf_tk_incl; eassumption|].
+    split; [|split; assumption].
+    intros f' Hf'. inversion Hf'; subst f'. split; [exact K3|]. intro Ha. destruct (K4 Ha). lia.
+  - apply sf_put_sig_Forall; [exact Hop|]. unfold sf_sig_open. cbn [wm_sg_set_fsr wm_sg_def wm_sg_fsr wm_sg_anno wm_sg_utc].
+    split; [exact Ho1|]. intros _. split; [discriminate | exact Hu].
+Qed.
+
+(* ================================================================ one call *)
+Definition sf_op_guard (lo : Z) (o : wop) : Prop :=
+  match o with
+  | WFsr _ sid samples => (lo <= sid /\ sid + Z.of_nat (length samples) < lo + sf_B)%Z
+  | _ => True
+  end.
+
+Lemma sf_step_ok : forall lo k st o, sf_st_ok lo k st -> sf_st_open st -> k + 1 < sf_K -> sf_op_guard lo o ->
+  sf_st_ok lo (k + 1) (fst (wm_step_rc summ1 summN st o)) /\ sf_st_open (fst (wm_step_rc summ1 summN st o)).
+Proof.
+  intros lo k st o Hst Hop Hk Hg.
+  assert (Hup : forall st', sf_st_ok lo k st' -> sf_st_ok lo (k + 1) st').
+  { intros st' [Hb Hs]. split; [exact Hb|]. eapply sf_Forall_sig_mono; [apply incl_refl | | exact Hs]. lia. }
+  destruct o as [d|d|sig sid samples|sig en|sig a|sig sid utc|u|]; cbn [wm_step_rc].
+  - destruct (sf_api_source_def_ok lo k st d Hst) as [A B]. split; [apply Hup; exact A|]. unfold sf_st_open. rewrite B. exact Hop.
+  - destruct (sf_api_signal_def_ok lo k st d Hst Hop) as [A B]. split; [apply Hup; exact A | exact B].
+  - destruct (sf_api_fsr_ok lo k st sig sid samples Hst Hop Hg) as [A B]. split; [apply Hup; exact A | exact B].
+  - destruct (sf_api_omit_ok lo k st sig en Hst Hop) as [A B]. split; [apply Hup; exact A | exact B].
+  - apply sf_api_annotation_ok; assumption.
+  - apply sf_api_utc_ok; assumption.
+  - destruct (sf_api_user_data_ok lo k st u Hst) as [A B]. split; [apply Hup; exact A|]. unfold sf_st_open. rewrite B. exact Hop.
+  - destruct (sf_api_flush_ok lo k st Hst) as [A B]. split; [apply Hup; exact A|]. unfold sf_st_open. rewrite B. exact Hop.
+Qed.
+
+Lemma sf_steps_ok : forall lo p k st rcs, sf_st_ok lo k st -> sf_st_open st -> k + N.of_nat (length p) < sf_K ->
+  Forall (sf_op_guard lo) p ->
+  sf_st_ok lo (k + N.of_nat (length p)) (fst (wm_steps summ1 summN st p rcs)).
+Proof.
+  intros lo p. induction p as [|o r IH]; intros k st rcs Hst Hop Hk Hg.
+  - cbn [wm_steps fst length]. replace (k + N.of_nat 0) with k by lia. exact Hst.
+  - inversion Hg as [|? ? Hgo Hgr]; subst. cbn [wm_steps].
+    destruct (wm_step_rc summ1 summN st o) as [st1 rc] eqn:Es.
+    destruct (sf_step_ok lo k st o Hst Hop ltac:(cbn [length] in Hk; lia) Hgo) as [A B]. rewrite Es in A, B. cbn [fst] in A, B.
+    replace (k + N.of_nat (length (o :: r))) with ((k + 1) + N.of_nat (length r)) by (cbn [length]; lia).
+    apply IH; [exact A | exact B | cbn [length] in Hk; lia | exact Hgr].
+Qed.
+
+(* ================================================================ jls_wr_open *)
+Lemma sf_state0_ok : forall lo, sf_st_ok lo 0 wm_state0.
+Proof.
+  intro lo. split; [|constructor].
+  unfold sf_base_ok, sf_bdisk. cbn [wm_state0 wm_st_base wm_b_raw wm_b_source_head wm_b_signal_head wm_b_ud_head].
+  split; [|split; [apply sf_ck0 | split; apply sf_ck0]].
+  unfold sf_raw_ok.
+  split; [vm_compute; reflexivity|]. split; [vm_compute; reflexivity|]. split; [vm_compute; discriminate|].
+  split; [vm_compute; discriminate|].
+  assert (Hd : wm_disk wm_raw_open = []) by (vm_compute; reflexivity). rewrite Hd.
+  split; [intros o h Hin; destruct Hin | intros o h h' Hin; destruct Hin].
+Qed.
+
+Lemma sf_api_open_ok : forall lo, sf_st_ok lo 0 wm_api_open /\ sf_st_open wm_api_open.
+Proof.
+  intro lo. unfold wm_api_open.
+  destruct (sf_api_user_data_ok lo 0 wm_state0 {| ud_meta := 0; ud_stype := JLS_STORAGE_TYPE_INVALID; ud_data := [] |} (sf_state0_ok lo)) as [A1 B1].
+  destruct (wm_api_user_data wm_state0 _) as [st1 rc1]. cbn [fst] in A1, B1.
+  destruct (sf_api_source_def_ok lo 0 st1 source0 A1) as [A2 B2].
+  destruct (wm_api_source_def st1 source0) as [st2 rc2]. cbn [fst] in A2, B2.
+  assert (Hop2 : sf_st_open st2) by (unfold sf_st_open; rewrite B2, B1; constructor).
+  destruct (sf_api_signal_def_ok lo 0 st2 wm_signal0_raw A2 Hop2) as [A3 B3].
+  destruct (wm_api_signal_def st2 wm_signal0_raw) as [st3 rc3]. cbn [fst] in A3, B3. split; assumption.
+Qed.
+
+(* ================================================================ jls_wr_close *)
+Lemma sf_fsr_inv_lim : forall d f lo, sf_def_ok d -> sf_fsr_inv d f ->
+  (wm_f_alloc f = true -> (lo <= wm_f_sid0 f /\ sf_pos f < lo + sf_B)%Z) ->
+  sf_f_w d f 1 < sf_lim d /\
+  (wm_f_alloc f = true -> wm_f_count f = N.of_nat (length (wm_f_buf f)) /\ sf_Wf d f < sf_lim d).
+Proof.
+  intros d f lo Hd (Hflv & Hal & Hnal) Hwin. pose proof (sf_lim_ge d Hd) as Hlim. unfold sf_K in Hlim.
+  destruct (wm_f_alloc f) eqn:Ea.
+  - destruct (Hal eq_refl) as [[B1 B2] B3]. destruct (Hwin eq_refl) as [W1 W2]. unfold sf_B in W2. unfold sf_Wf in *.
+    split; [lia|]. intros _. split; [exact B1 | lia].
+  - rewrite (Hnal eq_refl). split; [lia | discriminate].
+Qed.
+
+Lemma sf_close_signal_ok : forall lo k st id, sf_st_ok lo k st -> sf_st_ok lo k (wm_close_signal summ1 summN st id).
+Proof.
+  intros lo k st id Hst. unfold wm_close_signal.
+  destruct (wm_find_sig st id) as [s|] eqn:Ef; [|exact Hst].
+  destruct (sf_find_sig_in _ _ _ Ef) as [Hin _].
+  pose proof (sf_In_sig_ok _ _ _ _ Hst Hin) as Hs.
+  set (P := fun (b : wm_base) (s' : wm_signal) => sf_base_ok b /\ sf_bext (wm_st_base st) b /\ sf_sig_ok (sf_bdisk b) lo k s').
+  (* fsr *)
+  set (r1 := match wm_sg_fsr s with
+             | None => (wm_st_base st, s)
+             | Some f => let x := wm_fsr_close summ1 summN (wm_sg_def s) {| wm_fx_base := wm_st_base st; wm_fx_tk := wm_sg_tk_fsr s; wm_fx_fsr := f |} in
+                         (wm_fx_base x, wm_sg_set_fsr s (wm_fx_tk x) None)
+             end).
+  assert (Q1 : P (fst r1) (snd r1)).
+  { subst r1. destruct (wm_sg_fsr s) as [f|] eqn:Efs.
+    - destruct Hs as (H1 & H2 & H3 & H4 & H5 & H6 & H7 & H8 & H9). destruct (H7 f Efs) as [Finv Fwin].
+      set (x0 := {| wm_fx_base := wm_st_base st; wm_fx_tk := wm_sg_tk_fsr s; wm_fx_fsr := f |}).
+      assert (Hx0 : sf_fx_ok x0) by (split; [apply Hst|]; split; [exact H2|]; split; [apply Finv | exact H3]).
+      destruct (sf_fsr_inv_lim _ _ lo H1 Finv Fwin) as [L1 L2].
+      destruct (sf_fsr_close_spec summ1 summN (wm_sg_def s) x0 Hx0 H1 L1 L2) as [K1 K2].
+      cbv zeta in K1, K2 |- *. set (x := wm_fsr_close summ1 summN (wm_sg_def s) x0) in *. cbn [fst snd].
+      destruct K1 as (A1 & A2 & A3 & A4). cbn [x0 wm_fx_base] in K2.
+      split; [exact A1|]. split; [exact K2|].
+      unfold sf_sig_ok. cbn [wm_sg_set_fsr wm_sg_def wm_sg_tk_fsr wm_sg_tk_vsr wm_sg_tk_anno wm_sg_tk_utc wm_sg_fsr wm_sg_anno wm_sg_utc].
+      split; [exact H1|]. split; [exact A2|]. split; [exact A4|]. split; [eapply sf_tk_incl; eassumption|].
+      split; [eapply sf_tk_incl; eassumption|]. split; [eapply sf_tk_incl; eassumption|].
+      split; [intros f' Hf'; discriminate|]. split; assumption.
+    - cbn [fst snd]. split; [apply Hst|]. split; [apply sf_bext_refl | exact Hs]. }
+  destruct r1 as [b1 s1]. cbn [fst snd] in Q1.
+  (* annotation *)
+  set (r2 := match wm_sg_anno s1 with
+             | None => (b1, s1)
+             | Some ts => let x := wm_ts_close id {| wm_tx_base := b1; wm_tx_tk := wm_sg_tk_anno s1; wm_tx_ts := ts |} in
+                          (wm_tx_base x, wm_sg_set_anno s1 (wm_tx_tk x) None)
+             end).
+  assert (Q2 : P (fst r2) (snd r2)).
+  { subst r2. destruct Q1 as (Hb1 & He1 & Hs1). destruct (wm_sg_anno s1) as [ts|] eqn:Ea.
+    - destruct Hs1 as (H1 & H2 & H3 & H4 & H5 & H6 & H7 & H8 & H9). destruct (H8 ts Ea) as (A1 & _).
+      set (x0 := {| wm_tx_base := b1; wm_tx_tk := wm_sg_tk_anno s1; wm_tx_ts := ts |}).
+      assert (Hx0 : sf_tx_ok x0) by (split; [exact Hb1|]; split; [exact H5 | exact A1]).
+      destruct (sf_ts_close_spec id x0 Hx0) as [K1 K2]. cbv zeta. set (x := wm_ts_close id x0) in *. cbn [fst snd].
+      destruct K1 as (B1 & B2 & B3). cbn [x0 wm_tx_base] in K2.
+      split; [exact B1|]. split; [eapply sf_bext_trans; eassumption|].
+      unfold sf_sig_ok. cbn [wm_sg_set_anno wm_sg_def wm_sg_tk_fsr wm_sg_tk_vsr wm_sg_tk_anno wm_sg_tk_utc wm_sg_fsr wm_sg_anno wm_sg_utc].
+      split; [exact H1|]. split; [eapply sf_tk_incl; eassumption|]. split; [exact H3|]. split; [eapply sf_tk_incl; eassumption|].
+      split; [exact B2|]. split; [eapply sf_tk_incl; eassumption|]. split; [exact H7|].
+      split; [intros ts' Hts'; discriminate | exact H9].
+    - cbn [fst snd]. split; [exact Hb1|]. split; [exact He1 | exact Hs1]. }
+  destruct r2 as [b2 s2]. cbn [fst snd] in Q2.
+  (* utc *)
+  set (r3 := match wm_sg_utc s2 with
+             | None => (b2, s2)
+             | Some ts => let x := wm_ts_close id {| wm_tx_base := b2; wm_tx_tk := wm_sg_tk_utc s2; wm_tx_ts := ts |} in
+                          (wm_tx_base x, wm_sg_set_utc s2 (wm_tx_tk x) None)
+             end).
+  assert (Q3 : P (fst r3) (snd r3)).
+  { subst r3. destruct Q2 as (Hb2 & He2 & Hs2). destruct (wm_sg_utc s2) as [ts|] eqn:Ea.
+    - destruct Hs2 as (H1 & H2 & H3 & H4 & H5 & H6 & H7 & H8 & H9). destruct (H9 ts Ea) as (A1 & _).
+      set (x0 := {| wm_tx_base := b2; wm_tx_tk := wm_sg_tk_utc s2; wm_tx_ts := ts |}).
+      assert (Hx0 : sf_tx_ok x0) by (split; [exact Hb2|]; split; [exact H6 | exact A1]).
+      destruct (sf_ts_close_spec id x0 Hx0) as [K1 K2]. cbv zeta. set (x := wm_ts_close id x0) in *. cbn [fst snd].
+      destruct K1 as (B1 & B2 & B3). cbn [x0 wm_tx_base] in K2.
+      split; [exact B1|]. split; [eapply sf_bext_trans; eassumption|].
+      unfold sf_sig_ok. cbn [wm_sg_set_utc wm_sg_def wm_sg_tk_fsr wm_sg_tk_vsr wm_sg_tk_anno wm_sg_tk_utc wm_sg_fsr wm_sg_anno wm_sg_utc].
+      split; [exact H1|]. split; [eapply sf_tk_incl; eassumption|]. split; [exact H3|]. split; [eapply sf_tk_incl; eassumption|].
+      split; [eapply sf_tk_incl; eassumption|]. split; [exact B2|]. split; [exact H7|].
+      split; [exact H8 | intros ts' Hts'; discriminate].
+    - cbn [fst snd]. split; [exact Hb2|]. split; [exact He2 | exact Hs2]. }
+  destruct r3 as [b3 s3]. cbn [fst snd] in Q3. destruct Q3 as (Hb3 & He3 & Hs3).
+  apply (sf_put_sig_ok lo k k st); [exact Hst | exact Hb3 | exact He3 | apply N.le_refl | exact Hs3].
+Qed.
+
+Lemma sf_api_close_no_fault : forall lo k st, sf_st_ok lo k st -> wm_st_fault (wm_api_close summ1 summN st) = false.
+Proof.
+  intros lo k st Hst. unfold wm_api_close.
+  destruct (sf_fold_inv wm_state N (sf_st_ok lo k) (fun _ _ => True) (fun _ => True) (wm_close_signal summ1 summN))
+    with (ls := wm_signal_ids) (x0 := st) as [J1 _]; auto.
+  - intros x a Hx _. split; [apply sf_close_signal_ok; exact Hx | exact I].
+  - apply Forall_forall. intros; exact I.
+  - set (st1 := fold_left (wm_close_signal summ1 summN) wm_signal_ids st) in *.
+    destruct (sf_core_wr_end (wm_st_base st1) (proj1 J1)) as [Hb _].
+    unfold wm_st_fault, wm_st_set_base. cbn [wm_st_base wm_b_set_raw wm_b_raw]. rewrite sf_raw_close_fault. apply Hb.
+Qed.
+
+(* ================================================================ the main theorem *)
+Theorem sf_writer_never_faults : forall (p : list wop) (lo : Z),
+  N.of_nat (length p) < sf_K -> Forall (sf_op_guard lo) p ->
+  wm_st_fault (fst (wm_run_full summ1 summN p)) = false.
+Proof.
+  intros p lo Hlen Hg. unfold wm_run_full.
+  destruct (sf_api_open_ok lo) as [Ho1 Ho2].
+  pose proof (sf_steps_ok lo p 0 wm_api_open [] Ho1 Ho2 ltac:(lia) Hg) as Hs.
+  destruct (wm_steps summ1 summN wm_api_open p []) as [st rcs]. cbn [fst] in Hs |- *.
+  eapply sf_api_close_no_fault. exact Hs.
+Qed.
+
+(* also without jls_wr_close (a program that is still running, or never closes) *)
+Theorem sf_writer_steps_never_fault : forall (p : list wop) (lo : Z),
+  N.of_nat (length p) < sf_K -> Forall (sf_op_guard lo) p ->
+  wm_st_fault (fst (wm_steps summ1 summN wm_api_open p [])) = false.
+Proof.
+  intros p lo Hlen Hg. destruct (sf_api_open_ok lo) as [Ho1 Ho2].
+  pose proof (sf_steps_ok lo p 0 wm_api_open [] Ho1 Ho2 ltac:(lia) Hg) as [Hb _].
+  unfold wm_st_fault. apply Hb.
+Qed.
+
+End SF_API.
